@@ -75,8 +75,11 @@ func (p *parser) Block(sym, pre, post string) *token {
 }
 
 func (p *parser) Next() *token {
-	p.Token = p.Tokens[p.N]
-	p.N++
+	// at the end of the input the (eof) token stays current
+	if p.N < len(p.Tokens) {
+		p.Token = p.Tokens[p.N]
+		p.N++
+	}
 	return p.Token
 }
 
